@@ -20,8 +20,32 @@ func binaryRead(ex *Exec, st *State, fv FuncV, args []Value, res ssa.Value, at s
 		ex.endPath(st, "panic")
 		return false
 	}
+	// a harness wrapper that counts the octets delivered: struct{ R *bytes.Reader; N int } named
+	// verifCountReader; binary.Read goes through io.ReadFull, i.e. through the wrapper's Read
+	var counter *PtrV
+	if pt, okp := rd.t.(*types.Pointer); okp {
+		if nt, okn := pt.Elem().(*types.Named); okn && nt.Obj().Name() == "verifCountReader" {
+			wp := rd.v.(PtrV)
+			ws := st.load(wp).(StructV)
+			inner, oki := ws.f[0].(PtrV)
+			if !oki || inner.obj == 0 {
+				fail("verifCountReader without a reader")
+			}
+			counter = &wp
+			rd = IfaceV{t: types.NewPointer(nt.Underlying().(*types.Struct).Field(0).Type().(*types.Pointer).Elem()), v: inner}
+		}
+	}
 	if rd.t.String() != "*bytes.Reader" {
 		fail("binary.Read on reader of type %v", rd.t)
+	}
+	count := func(st *State, k *Term) {
+		if counter == nil {
+			return
+		}
+		ws := st.load(*counter).(StructV)
+		nf := append([]Value(nil), ws.f...)
+		nf[1] = bvBin("bvadd", nf[1].(*Term), k)
+		st.store(*counter, StructV{f: nf})
 	}
 	if ord, ok := args[1].(IfaceV); !ok || ord.t == nil || ord.t.String() != "encoding/binary.bigEndian" {
 		fail("binary.Read with a byte order other than BigEndian")
@@ -95,6 +119,7 @@ func binaryRead(ex *Exec, st *State, fv FuncV, args []Value, res ssa.Value, at s
 				st.heap[dstSlice.obj] = &Obj{typ: dobj.typ, val: setPath(dobj.val, dstSlice.path, BytesV{a: na, n: cont.n, w: 8})}
 			}
 			setPos(st, s.len)
+			count(st, rem)
 			setRes(st, res, ex.opaqueErr("io.ErrUnexpectedEOF"))
 		}},
 		{tAnd(tNot(zero), okc), func(st *State) {
@@ -121,6 +146,7 @@ func binaryRead(ex *Exec, st *State, fv FuncV, args []Value, res ssa.Value, at s
 				st.heap[dstSlice.obj] = &Obj{typ: dobj.typ, val: setPath(dobj.val, dstSlice.path, BytesV{a: na, n: cont.n, w: 8})}
 			}
 			setPos(st, bvBin("bvadd", pos, n))
+			count(st, n)
 			setRes(st, res, IfaceV{})
 		}},
 	}
